@@ -1,3 +1,6 @@
+#[cfg(walleye_verif)]
+use crate::verif_seam::time::Instant;
+#[cfg(not(walleye_verif))]
 use std::time::Instant;
 
 /*
